@@ -240,7 +240,7 @@ class Run:
             samples.append({"op": op, "args": [core.dec(a) if _is_atom(a) else a for a in args], "both": model[-1]})
         self.cov["correspondence"] = {
             "cases": len(cases), "corpus": ncorpus, "distinct_nontrivial": len(distinct),
-            "mismatches": len(mismatches), "distribution": dict(dist.most_common(60)),
+            "mismatches": len(mismatches), "distribution": dict(dist.most_common(getattr(p, "dist_limit", 60))),
         }
         self.cov["samples"] = samples
         if mismatches:
@@ -458,7 +458,7 @@ def _corr_shard(arg):
 
 
 def _is_atom(a):
-    return a in ("~", "-") or all(c in "0123456789abcdef." for c in a)
+    return a in ("~", "-") or (a != "" and all(c in "0123456789abcdef." for c in a))
 
 
 def _first_error(log):
